@@ -1,5 +1,5 @@
 """C07: concurrent API calls are atomic, race-free and cannot deadlock."""
-import hashlib, os
+import hashlib, os, time
 from vlib import common as C
 from checks import _conc as K
 
@@ -403,6 +403,9 @@ def explore(ctx, hs, drv, n_asan, n_tsan, label, stats):
         for c in cases[:2]:
             ctx.sample(dict(case=c[0], threads=c[2]["nth"], wal=c[2]["wal"], roles=c[2]["roles"], lines=c[1][:14]))
         for i in range(0, len(cases), 25):
+            if len(ctx.violations) >= 3 and time.time() - ctx.t0 > 300:
+                ctx.notes.append("exploration cut short after %d of %d %s cases: violations already reported and 5 minutes used" % (i, len(cases), variant))
+                break      # hangs are expensive (every one costs a watchdog period): do not grind through the rest
             run_batch(ctx, hs[variant], drv, variant, cases[i:i + 25], stats, cache)
 
 
